@@ -23,9 +23,16 @@ var (
 	MalformedVersions = []string{"HTTP/1.:", "HTTP/1.;", "HTTP/1.<", "HTTP/1.=", "HTTP/1.>", "HTTP/1.?",
 		"HTTP/:.1", "HTTP/1.1:", "HTTP/1.:0", "http/1.1", "HTTP/1", "HTTP/1.1x", "HTTP/1.", "HTTP/.1", "HTTP/11",
 		"HTTP/1.1.1", "HTTP/1,1", "HTTP/x.1", "HTTP/1.-1", "HTTP/1.+1", "HTTPS/1.1", "HTTP/1.1/", "HTTP-1.1", "HTTP/1.a",
-		"HTTP/1.\x7f", "HTTP/1./", "1.1", "HTTP/"}
+		"HTTP/1.\x7f", "HTTP/1./", "1.1", "HTTP/", "HTTP/1.1\r", "HTTP/1.1\r\r", "HTTP/1.1\t", "HTTP/1.1 ", "HTTP/1.1 x", "HTTP/1.0 HTTP/1.1"}
 	// OpenVersions: leading zeros and numbers too long for an int.
 	OpenVersions = []string{"HTTP/1.01", "HTTP/01.1", "HTTP/1.00", "HTTP/001.001", "HTTP/1.99999999999999999999", "HTTP/18446744073709551617.1"}
+
+	// SpacedTargets make the request line something else than
+	// `METHOD SP target SP version`: more than three fields, doubled, leading
+	// or trailing spaces around the target (must-fail for ws.Upgrader).
+	SpacedTargets = []string{"/chat room", " /ws", "/ws ", "/ws HTTP/1.0", "/ws  ", " ", "  ", "/a b c", "/ws HTTP/1.1", "/ws\t x"}
+	// StrayCRs are put between a value (or nothing) and the line terminator.
+	StrayCRs = []string{"\r", "\r\r", " \r", "\r "}
 
 	Targets    = []string{"/", "/chat?x=1", "*", "/a/b%20c", "/ws/"}
 	AbsTargets = []string{"ws://example.com/chat", "http://example.com/"}
@@ -354,6 +361,12 @@ func LinesFor(t *rapid.T, label string, h HeaderID, s State, open bool) []Line {
 		}
 		return []Line{ln}
 	case Wrong:
+		if (h == HUpgrade || h == HVersion || h == HKey) && rapid.IntRange(0, 3).Draw(t, label+".straycr") == 0 {
+			// a good value followed by stray CR(s) before the line terminator
+			ln := canon(genGood(t, label, h, rapid.Bool().Draw(t, label+".canonval")))
+			ln.Trail = rapid.SampledFrom(StrayCRs).Draw(t, label+".cr")
+			return []Line{ln}
+		}
 		ln := canon(genWrong(t, label, h, open))
 		if rapid.IntRange(0, 3).Draw(t, label+".wvary") == 0 {
 			ln.Name = genName(t, label, name, true)
@@ -484,7 +497,14 @@ func GenRequest(t *rapid.T, label string, plan Plan) *Request {
 			r.Version = rapid.SampledFrom(GoodVersions).Draw(t, label+".version")
 		}
 	default:
-		switch k := rapid.IntRange(0, 9).Draw(t, label+".vkind"); {
+		switch k := rapid.IntRange(0, 11).Draw(t, label+".vkind"); {
+		case k >= 10: // a valid version, but the line has extra spaces
+			r.Version = "HTTP/1.1"
+			r.Target = rapid.SampledFrom(SpacedTargets).Draw(t, label+".spaced")
+			if rapid.IntRange(0, 3).Draw(t, label+".spacedmethod") == 0 {
+				r.Target = "/ws"
+				r.Method = rapid.SampledFrom([]string{" GET", "GET ", " GET ", "G ET"}).Draw(t, label+".spmethod")
+			}
 		case k < 3:
 			r.Version = rapid.SampledFrom(LowVersions).Draw(t, label+".version")
 		case k < 7:
@@ -558,7 +578,7 @@ func GenRequest(t *rapid.T, label string, plan Plan) *Request {
 		lines = append(lines, genExtra(t, label+".extra"))
 	}
 	if plan.Bad[CJunk] {
-		lines = append(lines, Line{NoColon: true, Name: rapid.SampledFrom([]string{"garbage", "X-NoColon value", "GET / HTTP/1.1", "Host", "Upgrade websocket", "=", "Sec-WebSocket-Key", "x"}).Draw(t, label+".junk")})
+		lines = append(lines, Line{NoColon: true, Name: rapid.SampledFrom([]string{"garbage", "X-NoColon value", "GET / HTTP/1.1", "Host", "Upgrade websocket", "=", "Sec-WebSocket-Key", "x", "\r", "\r\r"}).Draw(t, label+".junk")})
 	}
 	if len(lines) > 1 && rapid.IntRange(0, 4).Draw(t, label+".shuffle") > 0 {
 		lines = rapid.Permutation(lines).Draw(t, label+".order")
@@ -579,6 +599,12 @@ func GenRequest(t *rapid.T, label string, plan Plan) *Request {
 	r.LineEOL = pick()
 	for i := range lines {
 		lines[i].EOL = pick()
+	}
+	for i := range lines {
+		// "\r" + LF would be a genuine (CRLF) empty line and end the head early
+		if lines[i].NoColon && lines[i].Name == "\r" && lines[i].EOL == "\n" {
+			lines[i].Name = "\r\r"
+		}
 	}
 	r.EndEOL = pick()
 	r.Lines = lines
